@@ -199,14 +199,19 @@ theorem toRat_powInt (a : Num) (e : Int) (isInt : Bool) (h : a.toRat ≠ 0 ∨ 0
     rw [← zpow_natCast, Int.toNat_of_nonneg he']
   · rfl
 
-theorem power_numLike {x y : S} {a b : Rat} (hx : NumLike x a) (hy : NumLike y b) (hb : b.den = 1) :
+theorem power_numLike {x y : S} {a b : Rat} (hx : NumLike x a) (hy : NumLike y b)
+    (hne : Spec.C01.power a b ≠ .undef) :
     Agree (Model.Value.power ext0 x y) (Spec.C01.power a b) := by
+  have hb : b.den = 1 := by
+    by_contra hb; apply hne; simp [Spec.C01.power, hb]
+  have h00 : ¬ (a = 0 ∧ b = 0) := by
+    intro h; apply hne; simp [Spec.C01.power, hb, h]
   obtain ⟨n, hn, hna⟩ := hx.toNumber
   obtain ⟨m, hm, hmb⟩ := hy.toNumber
   have hfe : firstErr x y = none := by simp [firstErr, hx.isErr, hy.isErr]
   have hint : Num.isIntegral m = true := by simp [Num.isIntegral, hmb, hb]
   simp only [Model.Value.power, hfe, hn, hm, OpR.ofNum, Spec.C01.power, hb, ne_eq, not_true_eq_false, if_false,
-    hna, hmb]
+    hna, hmb, h00]
   by_cases h0 : a = 0 ∧ b < 0
   · simp [h0, Agree]
   · simp only [h0, if_false, hint, not_true_eq_false, and_false, if_true]
@@ -795,10 +800,8 @@ theorem eval_denote_partial (hT : OpFuncOK Gen.infixOpToFunc Gen.prefixOpToFunc)
     case pow =>
       simp only [denote] at hu ⊢
       obtain ⟨hnl, hnr⟩ := hg.2.2 rfl
-      exact arith_case _ .pow _ _ _ _ hnl hnr hu IHl IHr (fun x y a b hx hy hne => by
-        have hb : b.den = 1 := by
-          by_contra hb; apply hne; simp [Spec.C01.power, hb]
-        exact power_numLike hx hy hb)
+      exact arith_case _ .pow _ _ _ _ hnl hnr hu IHl IHr (fun x y a b hx hy hne =>
+        power_numLike hx hy hne)
     case cat =>
       simp only [denote] at hu ⊢
       have hsl := cat_side hT m s henv l hwf.1 hin.1 hfin.1 IHl
